@@ -46,7 +46,7 @@ fn small_amount(rng: &mut Rng, big: bool) -> u128 {
 pub struct Gen { pub pending: VecDeque<Op>, pub focus: Focus }
 
 fn perturb(rng: &mut Rng, v: u128) -> u128 {
-    match rng.below(4) { 0 => v.saturating_sub(1), 1 => v + 1, 2 => v / 2, _ => v + rng.range128(1, 5000) }
+    match rng.below(6) { 0 | 1 => v.saturating_sub(1), 2 | 3 => v + 1, 4 => v / 2, _ => v + rng.range128(1, 5000) }
 }
 fn sort_coins(mut c: Coins) -> Coins { c.sort(); c.retain(|x| x.1 > 0); c }
 
@@ -109,17 +109,25 @@ impl Gen {
                 let end = match rng.below(20) { 0..=7 => None, 8..=14 => Some(s + 1 + rng.below(20)), 15..=17 => Some(s + 181 + rng.below(20)), 18 => Some(s), _ => Some(cur.saturating_sub(rng.below(2) + 1)) };
                 let label = if rng.chance(2, 5) { Some(rng.below(3)) } else { None };
                 let (mut funds, mut allow) = Gen::flow_recipe(&cfg, asset, amt);
-                if rng.chance(1, 4) {
-                    // malformed share: wrong amounts, missing / extra coins, only the fee
-                    match rng.below(7) {
-                        0 => if let Some(c) = funds.first_mut() { c.1 = perturb(rng, c.1); },
-                        1 => if let Some(c) = funds.last_mut() { c.1 = perturb(rng, c.1); },
-                        2 => if let Some(c) = allow.first_mut() { c.1 = perturb(rng, c.1); },
-                        3 => if let Some(c) = allow.last_mut() { c.1 = perturb(rng, c.1); },
-                        4 => { funds = sort_coins(vec![(cfg.fee_asset.min(3), cfg.fee)]); }           // pay only the fee
+                if rng.chance(3, 10) {
+                    // directed corner cases of the payment: fee over/under-paid, flow amount off by one, only the fee, extra / missing coins
+                    let fa = cfg.fee_asset;
+                    let bump = |rng: &mut Rng, v: u128| -> u128 { match rng.below(5) { 0 => v + 1, 1 => v.saturating_sub(1), 2 => v * 2, 3 => v + rng.range128(2, 5000), _ => v / 2 } };
+                    match rng.below(8) {
+                        0 | 1 => { // the fee coin / fee allowance
+                            if let Some(c) = funds.iter_mut().find(|c| c.0 == fa) { c.1 = bump(rng, c.1); }
+                            else if let Some(c) = allow.iter_mut().find(|c| c.0 == fa) { c.1 = bump(rng, c.1); }
+                        }
+                        2 | 3 => { // the flow asset coin / allowance
+                            if let Some(c) = funds.iter_mut().find(|c| c.0 == asset) { c.1 = bump(rng, c.1); }
+                            else if let Some(c) = allow.iter_mut().find(|c| c.0 == asset) { c.1 = bump(rng, c.1); }
+                        }
+                        4 => { funds = sort_coins(vec![(fa.min(3), cfg.fee)]); }           // pay only the fee
                         5 => { let d = rng.below(4) as i64; if !funds.iter().any(|c| c.0 == d) { funds.push((d, rng.range128(1, 5000))); funds = sort_coins(funds); } }
-                        _ => { if !funds.is_empty() { let i = rng.below(funds.len() as u64) as usize; funds.remove(i); } else { allow.clear(); } }
+                        6 => { if !funds.is_empty() { let i = rng.below(funds.len() as u64) as usize; funds.remove(i); } else { allow.clear(); } }
+                        _ => { for c in allow.iter_mut() { c.1 += rng.range128(1, 3000); } }
                     }
+                    funds = sort_coins(funds);
                 }
                 Op::OpenFlow { sender, funds, allow, start, end, asset, amount: amt, label }
             }
@@ -139,11 +147,11 @@ impl Gen {
                 let (_, lend) = f.latest();
                 let end = match rng.below(10) { 0..=5 => None, 6..=7 => Some(lend + rng.below(30)), 8 => Some(lend + 170 + rng.below(30)), _ => Some(lend.saturating_sub(1 + rng.below(3))) };
                 let (mut funds, mut allow): (Coins, Coins) = if asset < 10 { (vec![(asset, amt)], vec![]) } else { (vec![], vec![(asset, amt)]) };
-                if rng.chance(1, 6) {
-                    match rng.below(4) {
-                        0 => if let Some(c) = funds.first_mut() { c.1 = perturb(rng, c.1); } else if let Some(c) = allow.first_mut() { c.1 = perturb(rng, c.1); },
-                        1 => { funds.clear(); allow.clear(); }
-                        2 => { let d = rng.below(4) as i64; if !funds.iter().any(|c| c.0 == d) { funds.push((d, rng.range128(1, 5000))); funds = sort_coins(funds); } }
+                if rng.chance(1, 4) {
+                    match rng.below(6) {
+                        0 | 1 | 2 => if let Some(c) = funds.first_mut() { c.1 = perturb(rng, c.1); } else if let Some(c) = allow.first_mut() { c.1 = perturb(rng, c.1); },
+                        3 => { funds.clear(); allow.clear(); }
+                        4 => { let d = rng.below(4) as i64; if !funds.iter().any(|c| c.0 == d) { funds.push((d, rng.range128(1, 5000))); funds = sort_coins(funds); } }
                         _ => if let Some(c) = allow.first_mut() { c.1 += 1000; },
                     }
                 }
@@ -173,11 +181,11 @@ impl Gen {
                 let amt = if rng.chance(1, 12) { 0 } else { small_amount(rng, big).max(if rng.chance(1, 2) { 1 } else { 1000 }) };
                 let amt = if rng.chance(1, 3) { amount(rng, big) } else { amt };
                 let (mut funds, mut allow): (Coins, Coins) = if cfg.lp < 10 { (sort_coins(vec![(cfg.lp, amt)]), vec![]) } else { (vec![], sort_coins(vec![(cfg.lp, amt)])) };
-                if rng.chance(1, 7) {
-                    match rng.below(4) {
-                        0 => if let Some(c) = funds.first_mut() { c.1 = perturb(rng, c.1); } else if let Some(c) = allow.first_mut() { c.1 = perturb(rng, c.1); },
-                        1 => { funds.clear(); allow.clear(); }
-                        2 => { let d = rng.below(3) as i64; funds.push((d, rng.range128(1, 5000))); funds = sort_coins(funds); }
+                if rng.chance(1, 5) {
+                    match rng.below(6) {
+                        0 | 1 | 2 => if let Some(c) = funds.first_mut() { c.1 = perturb(rng, c.1); } else if let Some(c) = allow.first_mut() { c.1 = perturb(rng, c.1); },
+                        3 => { funds.clear(); allow.clear(); }
+                        4 => { let d = rng.below(3) as i64; if !funds.iter().any(|c| c.0 == d) { funds.push((d, rng.range128(1, 5000))); funds = sort_coins(funds); } }
                         _ => if let Some(c) = allow.first_mut() { c.1 += 777; },
                     }
                 }
